@@ -400,6 +400,16 @@ def arith_corpus():
                 for opener, closer, prefix in (("$((", "))", "echo "), ("((", "))", ""), ("$((", "))", 'echo "é" ')):
                     out.append(prefix + opener + wide + gap + nxt + closer + "\n")
                     out.append(prefix + opener + nxt + gap + wide + gap + nxt + closer + "\n")
+    # a quoted part that spans lines with multi-byte text after its last newline, next to another part: End() of such a part
+    # counts characters after the newline
+    for wide in ("\u00e9", "\u65e5\u672c", "a\u00e9", "\u00e9\u00e9\u00e9"):
+        for gap in ("", " ", "  ", "   "):
+            for nxt in ("$x", "1", "${v}", "+1"):
+                for q in ("'a\n%s'", '"b\n%s"', "${y:-\n%s}", "'\n\n%s'"):
+                    part = q % wide
+                    out.append("echo $((" + part + gap + nxt + "))\n")
+                    out.append("((" + part + gap + nxt + "))\n")
+                    out.append("echo \"$((" + nxt.lstrip("+") + gap + part + gap + nxt + "))\"\n")
     # empty expressions whose brackets stand on different lines (a line break, a continuation, blanks), alone and nested
     for prefix, opener, closer, tail in (("", "((", "))", ""), ("echo ", "$((", "))", ""), ('echo "', "$((", "))", '"'), ("x=", "$((", "))", " y"),
                                          ("{\n", "((", "))", "\n}"), ("if ", "((", "))", "; then a; fi"), ("echo $(", "((", "))", ")")):
